@@ -207,7 +207,7 @@ Proof.
     split; [|split; [reflexivity|split; [reflexivity|split; [reflexivity|]]]].
     2:{ cbn. unfold upd_layer; cbn. eexists.
         rewrite upd_nth_last_. reflexivity. }
-    set (L := length (layers (with_next C nx st))).
+    set (L := length (layers st)) in *.
     set (st1 := with_client_ids C _ _).
     assert (EL : L = length (idl st)) by (unfold idl, L; cbn; rewrite map_length; reflexivity).
     assert (E1 : idl st1 = idl st ++ [(c, None)]) by (unfold idl, st1; cbn; rewrite map_app; reflexivity).
